@@ -404,11 +404,35 @@ func runC05(c *ctx, r *Report) error {
 	if !c.quick {
 		nV = 6000
 	}
-	return visitTie(c, r, nV, false, func(cs Case) (string, string) {
+	if err := visitTie(c, r, nV, false, func(cs Case) (string, string) {
 		names := []string{"prop-undefined", "filter-prop-undefined", "undefined-variable"}
 		if a, b := visitCodes(cs.Impl, names...), visitCodes(cs.Model, names...); a != b {
 			return "workflow-scope-differs-from-proved-rule", "the 'not defined' reports at the probes (" + a + ") differ from the proved scope rule (" + b + ")"
 		}
 		return "", ""
-	})
+	}); err != nil {
+		return err
+	}
+	// the whole rule over the parser's AST (AL.RuleExpr, tie `exprwf`) on the corpus with references planted at every scalar
+	perE := 6
+	if !c.quick {
+		perE = 200
+	}
+	return exStandard(c, r, func(cs Case) (string, string) {
+		pick := func(s string) string {
+			var out []string
+			for _, d := range strings.Split(s, ";") {
+				for _, n := range []string{"prop-undefined", "filter-prop-undefined", "undefined-variable"} {
+					if strings.HasPrefix(d, n+"(") {
+						out = append(out, d)
+					}
+				}
+			}
+			return strings.Join(out, ";")
+		}
+		if pick(cs.Impl) != pick(cs.Model) {
+			return "scope-reports-differ-from-rule-model", "the 'not defined' reports of the real rule differ from the model of rule_expression.go on this source"
+		}
+		return "", ""
+	}, perE, false)
 }
